@@ -15,8 +15,8 @@ Definition neutral (r : req) : Prop :=
   | _ => True
   end.
 
-Lemma set_field_quiet n l s s' :
-  set_field n l s = Some s' ->
+Lemma set_field_quiet e n l s s' :
+  set_field e n l s = Some s' ->
   log s' = log s /\ cur s' = cur s /\ argv s' = argv s /\ argc s' = argc s /\ idx s' = idx s /\ had s' = had s /\
   stdin s' = stdin s /\ NR s' = NR s /\ FNR s' = FNR s /\ FILENAME s' = FILENAME s /\ status s' = status s /\ vars s' = vars s.
 Proof.
@@ -34,24 +34,24 @@ Proof.
 Qed.
 
 (* the part of a getline after the read: storing into the target *)
-Definition store (tg : tgt) (r : Z) (l : record) (s2 : st) : option st :=
+Definition store (e : env) (tg : tgt) (r : Z) (l : record) (s2 : st) : option st :=
   if r =? 1 then
     match tg with
-    | TLine => Some (set_line l s2)
+    | TLine => Some (set_line e l s2)
     | TVar v => Some (add_log (EvGetVar v l) (set_vars (bupdate (vars s2) v l) s2))
-    | TField n => set_field n l s2
+    | TField n => set_field e n l s2
     end
   else Some s2.
 
 Lemma do_getline_split e sr tg s s' :
   do_getline e sr tg s = Some s' ->
-  exists r l s1, rd_read e sr s = Some (r, l, s1) /\ store tg r l (set_ret r s1) = Some s'.
+  exists r l s1, rd_read e sr s = Some (r, l, s1) /\ store e tg r l (set_ret r s1) = Some s'.
 Proof.
   unfold do_getline, store. destruct (rd_read e sr s) as [[[r l] s1]|]; [|discriminate].
   intros H. exists r, l, s1. split; [reflexivity|exact H].
 Qed.
 
-Lemma store_advances e tg r l s s' : store tg r l s = Some s' -> advances e s s'.
+Lemma store_advances e tg r l s s' : store e tg r l s = Some s' -> advances e s s'.
 Proof.
   unfold store. destruct (r =? 1).
   - destruct tg as [|v|n]; intros H.
@@ -171,7 +171,7 @@ Section Order.
     induction n as [|n IH]; intros flags u s u' s' fl' H; cbn [main_loop] in H; [discriminate|].
     destruct (next_line e s) as [res s1] eqn:HN.
     destruct res as [r| | | |]; try discriminate.
-    - destruct (exec_rules U step enter e fuel rules 0 [] flags u (set_line r s1)) as [| |u2 s2 fl2|o u2 s2]; try discriminate.
+    - destruct (exec_rules U step enter e fuel rules 0 [] flags u (set_line e r s1)) as [| |u2 s2 fl2|o u2 s2]; try discriminate.
       eapply IH; exact H.
     - injection H as _ <- _. eapply next_line_eof_plan; exact HN.
   Qed.
@@ -378,7 +378,7 @@ Proof.
   - apply walk_tracks in H. eapply tracks_trans; [|exact H]. apply tracks_same; reflexivity.
 Qed.
 
-Lemma store_tracks e tg r l s s' : store tg r l s = Some s' -> tracks e s s'.
+Lemma store_tracks e tg r l s s' : store e tg r l s = Some s' -> tracks e s s'.
 Proof.
   unfold store. destruct (r =? 1).
   - destruct tg as [|v|n]; intros H.
